@@ -39,7 +39,8 @@ def run(ctx):
                                    (m, c.get("kind"), json.dumps(c.get("in"))[:1500]))
     need = ["sess:set", "sess:set-empty", "sess:set-rejected", "sess:duplicate-prefix-in-set", "sess:drop-idle",
             "sess:drop-after-k", "sess:drop-mid-message", "sess:reconnected", "sess:stable", "sess:closed", "sess:messages",
-            "sess:close-in-backoff-refusals", "sess:set-right-after-drop", "step:abort", "step:abort-with-pending", "step:Set", "step:Set(invalid)", "step:Close"]
+            "sess:close-in-backoff-refusals", "sess:set-right-after-drop", "sess:cap-flip-on-off", "sess:cap-flip-off-on",
+            "sess:capflip-ebgp-updates-after-flip", "sess:ebgp-updates-with-connection-width", "step:abort", "step:abort-with-pending", "step:Set", "step:Set(invalid)", "step:Close"]
     if not thorough:
         need = [k for k in need if k not in ("sess:closed",)] + []
     if cases and any(stats.get(k, 0) == 0 for k in need):
@@ -71,7 +72,9 @@ def run(ctx):
     ctx.finish(len(cases), distinct,
                "real sessions against a scripted loopback peer: 4-12 actions per schedule from {Set (random subset, empty, attribute-only change, duplicate prefix), "
                "invalid Set, peer drop idle / after k UPDATEs / mid-message / during handshake, wrong AS number, sleeps 0-30ms}, iBGP/eBGP, 2- and 4-octet AS numbers, "
-               "then either Close or leave the connection alone and wait for convergence; plus the fixed first schedule MyASN=65536 vs 2-octet peer; "
+               "the peer's 4-octet-AS capability is drawn anew for every connection (on->off and off->on flips inside one session); "
+               "then either Close or leave the connection alone and wait for convergence; plus fixed schedules: MyASN=65536 vs 2-octet peer, Close during backoff, "
+               "capability flip on->off / off->on x eBGP / iBGP; "
                "plus white-box step cases (abort / Set / invalid Set / Close on hand-built session values, state before/after compared with the model step); "
                "non-trivial = trace of at least 6 events or a white-box step; distinct by content",
                [c["in"] for c in cases[1:3]], search=search)
